@@ -193,7 +193,7 @@ def run_case(spec):
 def check(rep, tier, seed, specs=None, n_override=None):
     quick = tier == 'quick'
     if specs is None:
-        n = n_override or (1500 if quick else 60000)
+        n = n_override or (6000 if quick else 60000)
         specs = [{'seed': common.hash64('c11', 'fixed' if i < n // 2 else seed, i), 'style': 'ENSEMBL' if i % 4 == 3 else 'GENCODE',
                   'unicode': i % 7 == 0} for i in range(n)]
     results, lost = common.shard_run('c11', specs, timeout_s=1500 if quick else 6 * 3600)
